@@ -94,10 +94,15 @@ func init() {
 // c09Variants: the pair (U, O = U + -optimize-grammar); every 4th grammar names its protected
 // rules with the flag given twice (the flag accumulates).
 func c09Variants(i int, g *gspec.Grammar) []batch.Variant {
-	alt := []string{"-alternate-entrypoints=" + joinComma(g.Entries)}
-	if i%4 == 3 && len(g.Entries) >= 2 {
-		h := len(g.Entries) / 2
-		alt = []string{"-alternate-entrypoints=" + joinComma(g.Entries[:h]), "-alternate-entrypoints=" + joinComma(g.Entries[h:])}
+	names := g.Entries
+	if i%2 == 1 && len(names) > 1 && names[0] == g.Rules[0].Name {
+		// the first rule is an entry point whether it is named or not
+		names = names[1:]
+	}
+	alt := []string{"-alternate-entrypoints=" + joinComma(names)}
+	if i%4 == 3 && len(names) >= 2 {
+		h := len(names) / 2
+		alt = []string{"-alternate-entrypoints=" + joinComma(names[:h]), "-alternate-entrypoints=" + joinComma(names[h:])}
 	}
 	if i%5 == 2 {
 		// both with -optimize-basic-latin: whatever the builder derives from a class must be
